@@ -612,3 +612,42 @@ def individualize(spec, rnd, params='different', vals=None):
     visit(spec['circ'])
     spec['node_types'] = new_types
     return spec
+
+
+def gen_shared_op_net(rnd):
+    """Two or three node TYPES that share one operator template (the usual way models are written: several populations use the same
+    rate-to-potential operator) and differ in a second, type-specific operator.  4-8 nodes in interleaved declaration order, so that a
+    wildcard path over the shared operator addresses nodes of several vectorization groups alternately.  Returns a spec."""
+    vals = Vals(rnd)
+    n_types = rnd.choice([2, 2, 3])
+    cop = {'eqs': [['de', 'x', ['add', ['add', ['neg', ['mul', ['var', 'a'], ['var', 'x']]], ['var', 'inp']],
+                                ['mul', ['num', round(rnd.uniform(0.3, 1.5), 3)], ['call', 'tanh', ['var', 'x']]]]]],
+           'vars': {'x': ['out', vals.new()], 'a': ['const', vals.new()], 'inp': ['in', 0.0]}}
+    ops = {'cop': cop}
+    node_types = {}
+    for ti in range(n_types):
+        names = ['cop']
+        if ti > 0 or rnd.random() < 0.3:
+            # type-specific operator that reads the shared operator's output (intra-node link by name)
+            f = ['tanh', 'sin', 'sigmoid'][ti % 3]
+            ops[f'sop{ti}'] = {'eqs': [['de', 'v', ['add', ['neg', ['mul', ['var', 'b'], ['var', 'v']]],
+                                                  ['mul', ['num', round(rnd.uniform(0.5, 1.5), 3)], ['call', f, ['var', 'x']]]]]],
+                               'vars': {'v': ['out', vals.new()], 'b': ['const', vals.new()], 'x': ['in', 0.0]}}
+            names.append(f'sop{ti}')
+        node_types[f'st{ti}'] = {'ops': names, 'over': {}}
+    n_nodes = rnd.randint(max(4, n_types + 1), 8)
+    labels = rnd.sample(['p1', 'p2', 'p3', 'p4', 'q5', 'q6', 'r7', 'r8', 'a9'], n_nodes)
+    types = [f'st{i % n_types}' for i in range(n_nodes)]
+    if rnd.random() < 0.5:
+        rnd.shuffle(types)
+        for ti in range(n_types):                    # every type occurs
+            types[ti] = f'st{ti}'
+    nodes = dict(zip(labels, types))
+    edges = []
+    for _ in range(rnd.randint(0, 3)):
+        s_, t_ = rnd.choice(labels), rnd.choice(labels)
+        if any(e[0].startswith(s_ + '/') and e[1].startswith(t_ + '/') for e in edges):
+            continue
+        edges.append([f'{s_}/cop/x', f'{t_}/cop/inp', None, {'weight': vals.new()}])
+    spec = {'ops': ops, 'node_types': node_types, 'edge_types': {}, 'circ': {'name': 'top', 'nodes': nodes, 'subs': {}, 'edges': edges}}
+    return individualize(spec, rnd, params=rnd.choice(['different', 'different', 'equal']), vals=vals)
